@@ -7,7 +7,7 @@
 From Coq Require Import Ascii String List Bool PArith NArith FMapPositive Permutation Lia.
 From PTBase Require Import Exn PyStr.
 From Gen Require Import GenFlags.
-From P Require Import Assoc GridEdit GridLemmas Inv InvRock InvBlock InvConnAdd.
+From P Require Import Assoc GridEdit GridLemmas Inv InvRock InvBlock InvConnAdd InvRename.
 Import ListNotations.
 Open Scope list_scope.
 
@@ -160,4 +160,20 @@ Proof.
   - destruct (bget g n) as [i|]; [|discriminate]. destruct (mem i (blist g)) eqn:M; [|discriminate].
     apply IH in H. gs in H. destruct H as [P [Ed En]]. split; [|split; [exact Ed|exact En]].
     eapply Permutation_trans; [|exact P]. apply Permutation_lremove_snoc. apply mem_In. exact M.
+Qed.
+
+(** ** rename_blocks(blockmap) in the default call form: refused exactly when [fix_block_mapping] is (a name too short
+    for [name[2]] / [name[4]]: IndexError; a key fixed twice: KeyError), with the same exception; the renaming itself
+    never raises on a consistent grid *)
+Lemma rename_blocks_fix_raises_iff g m e : Inv g ->
+  (rename_blocks_fix g m = Raise e <-> fix_block_mapping m = Raise e).
+Proof.
+  intro I. unfold rename_blocks_fix. destruct (fix_block_mapping m) as [m'|e']; cbn [bind]; [|split; intro H; inversion H; reflexivity].
+  destruct (rename_blocks_total g m' I) as [g' ->]. split; discriminate.
+Qed.
+(** deleting a name that is not there is not an error and changes nothing *)
+Lemma delete_absent_noop g : (forall n, rget g n = None -> delete_rocktype g n = Ok g) /\
+  (forall n, bget g n = None -> delete_block g n = Ok g) /\ (forall k, cget g k = None -> delete_connection g k = Ok g).
+Proof.
+  split; [|split]; intros x H; [unfold delete_rocktype|unfold delete_block|unfold delete_connection]; rewrite H; reflexivity.
 Qed.
